@@ -301,7 +301,7 @@ CHECKS["C12"] = {
     "units": [
         {"pkg": ".", "run": "^TestVerif_C12_", Q: {"timeout": 900}, T: {"timeout": 3400, "shards": 12}},
     ],
-    "mandatory_labels": {"all": ["mutant/rejected-by-signature-or-type-only", "honest-join", "identity", "descriptor/GroupTypeAccount", "descriptor/GroupTypeContact", "descriptor/GroupTypeMultiMember", "descriptor/joined-without-link-key-sig", "service-join"]},
+    "mandatory_labels": {"all": ["mutant/rejected-by-signature-or-type-only", "honest-join", "identity", "descriptor/GroupTypeAccount", "descriptor/GroupTypeContact", "descriptor/GroupTypeMultiMember", "descriptor/joined-without-link-key-sig", "service-join", "join-leave-altered-rejoin"]},
 }
 
 CHECKS["C06"] = {
@@ -357,6 +357,10 @@ CHECKS["C20"] = {
     "assumptions": ["the exporting node's background writers have quiesced (log lengths stable) before the export is taken"],
     "units": [
         {"pkg": ".", "run": "^TestVerif_C20_", "shrinktime": "5s", Q: {"timeout": 1200}, T: {"timeout": 3400, "shards": 12}},
+    ],
+    "crash_patterns": [
+        {"re": r"^(panic: .*|fatal error: .*)$", "also": [r"berty\.tech/weshnet/v2\.\(\*WeshOrbitDB\)|berty\.tech/weshnet/v2\.RestoreAccountExport|berty\.tech/weshnet/v2\.restore"], "identity": "restore-crashes-the-process",
+         "site_re": r"^berty\.tech/weshnet/v2\.(?:\(\*WeshOrbitDB\)\.)?([A-Za-z]+)"},
     ],
     "mandatory_labels": {"all": ["round-trip", "round-trip/several-groups", "round-trip/contact-group", "mutant/rejected", "mutant/entry-byte-flip", "mutant/key-duplicated", "mutant/existing-account"]},
 }
